@@ -341,6 +341,12 @@ func TestC07(t *testing.T) {
 			inputs = append(inputs, input{sd.Name + "+drop", d2, p2, in2})
 		}
 	}
+	var firstJPEG []byte
+	for _, in := range inputs {
+		if len(in.data) > 2 && in.data[0] == 0xFF && in.data[1] == 0xD8 && firstJPEG == nil {
+			firstJPEG = in.data
+		}
+	}
 	junk := make([]byte, 300)
 	x := uint32(ev.Seed()*2654435761 + 99)
 	for i := range junk {
@@ -349,7 +355,12 @@ func TestC07(t *testing.T) {
 	}
 	for _, extra := range []input{{name: "empty", data: nil}, {name: "random", data: junk},
 		{name: "png-signature", data: []byte{0x89, 'P', 'N', 'G', 0x0D, 0x0A, 0x1A, 0x0A}}, {name: "jpeg-soi", data: []byte{0xFF, 0xD8}},
-		{name: "riff-webp", data: []byte("RIFF\x04\x00\x00\x00WEBP")}, {name: "png-huge-first-chunk", data: append([]byte{0x89, 'P', 'N', 'G', 0x0D, 0x0A, 0x1A, 0x0A, 0xFF, 0xFF, 0xFF, 0xF0, 't', 'E', 'X', 't'}, junk...)}} {
+		{name: "riff-webp", data: []byte("RIFF\x04\x00\x00\x00WEBP")},
+		// inputs that BEGIN with padding a signature check may be tempted to skip over: fill bytes, zeros, whitespace
+		{name: "ff-run", data: []byte{0xFF, 0xFF, 0xFF}}, {name: "ff-padded-junk", data: append(bytes.Repeat([]byte{0xFF}, 16), junk[:40]...)},
+		{name: "fill-before-soi", data: append([]byte{0xFF, 0xFF, 0xFF}, firstJPEG[:min(len(firstJPEG), 600)]...)},
+		{name: "ff-before-jpeg-seed", data: append([]byte{0xFF}, 0xFF, 0xD8, 0xFF, 0xC0, 0, 11, 8, 0, 1, 0, 1, 1, 1, 0x11, 0, 0xFF, 0xDA, 0, 8, 1, 1, 0, 0, 63, 0, 7, 0xFF, 0xD9)},
+		{name: "zero-run", data: make([]byte, 9)}, {name: "spaces-before-png", data: append([]byte("  \r\n"), 0x89, 'P', 'N', 'G', 0x0D, 0x0A, 0x1A, 0x0A, 0, 0, 0, 13, 'I', 'H', 'D', 'R')}, {name: "png-huge-first-chunk", data: append([]byte{0x89, 'P', 'N', 'G', 0x0D, 0x0A, 0x1A, 0x0A, 0xFF, 0xFF, 0xFF, 0xF0, 't', 'E', 'X', 't'}, junk...)}} {
 		p, in := positions(seeds.Seed{}, extra.data, 1)
 		extra.pos, extra.in = p, in
 		inputs = append(inputs, extra)
@@ -516,7 +527,12 @@ func TestC07(t *testing.T) {
 	rapid.Check(t, func(rt *rapid.T) {
 		f := gen.Any(rt, gen.Opts{MaxICC: 9000})
 		c := Case{Seed: f.Desc, Data: f.Data, FaultAt: -1, Loader: rapid.SampledFrom(ld.Names).Draw(rt, "loader")}
-		switch rapid.IntRange(0, 2).Draw(rt, "mode") {
+		switch rapid.IntRange(0, 3).Draw(rt, "mode") {
+		case 3:
+			// a few bytes of padding in front of the file: fill bytes, zeros, whitespace, half a signature
+			pad := bytes.Repeat([]byte{byte(rapid.SampledFrom([]int{0xFF, 0xFF, 0, ' ', 0x89, 'R'}).Draw(rt, "padbyte"))}, rapid.IntRange(1, 5).Draw(rt, "padlen"))
+			c.Data = append(pad, f.Data[:rapid.IntRange(0, len(f.Data)).Draw(rt, "cutpad")]...)
+			c.Seed += fmt.Sprintf(" preceded by %d bytes %#x", len(pad), pad[0])
 		case 0:
 			c.Data = f.Data[:rapid.IntRange(0, len(f.Data)).Draw(rt, "cut")]
 		case 1:
